@@ -329,6 +329,28 @@ package spg
 //@   loop 1 invariant [C05] values: forall(int(k), trig(ret[k]), 0 <= k && k < len(ret) ==> ret[k] == tfilt(arr(ts), off(ts), it, tType)[k])
 //@   loop 1 invariant [C05] fresh:  arrid(ret) > old(alloc)
 
+//@ func (Tokens).Atoms
+//@   ensures [C05] count:  len(res) == tcount(arr(ts), off(ts), len(ts), AtomType)
+//@   ensures [C05] values: forall(int(k), trig(res[k]), 0 <= k && k < len(res) ==> res[k] == tfilt(arr(ts), off(ts), len(ts), AtomType)[k])
+//@   ensures [C05,C15] fresh: len(res) == 0 || fresh(res)
+
+//@ func (Tokens).Separators
+//@   ensures [C05] count:  len(res) == tcount(arr(ts), off(ts), len(ts), SeparatorType)
+//@   ensures [C05] values: forall(int(k), trig(res[k]), 0 <= k && k < len(res) ==> res[k] == tfilt(arr(ts), off(ts), len(ts), SeparatorType)[k])
+//@   ensures [C05,C15] fresh: len(res) == 0 || fresh(res)
+
+//@ func (Tokens).isAllAtoms
+//@   ensures [C11] all: res == allatoms(arr(ts), off(ts), len(ts))
+
+//@ func (Password).Tokens
+//@   ensures [C05,C11,C03] tokens: res == p.tokens
+
+//@ func (Token).Value
+//@   ensures [C05,C11,C03] value: res == t.value
+
+//@ func (Token).Type
+//@   ensures [C05,C11,C03] type: res == t.tType
+
 // ---------------------------------------------------------------- constructors (C16)
 
 //@ func NewCharRecipe
